@@ -591,6 +591,18 @@ func fieldOptsOverride(opts *options, fieldName string, idx int) (*options, Erro
 		return opts, nil
 	}
 	cfgHandling, child, ok := opts.fieldHandlingTree.fieldHandling(fieldName, idx)
+	if !ok && child == nil && idx >= 0 && len(opts.fieldHandlingTree.fields.array()) > 0 {
+		// The positions configured for this list are positions of this list
+		// only, not of the lists nested in its other elements.
+		tree := (*Config)(opts.fieldHandlingTree)
+		newOpts := *opts
+		newOpts.fieldHandlingTree = (*fieldHandlingTree)(&Config{
+			ctx:      tree.ctx,
+			metadata: tree.metadata,
+			fields:   &fields{d: tree.fields.d},
+		})
+		return &newOpts, nil
+	}
 	if !ok && child == nil && (idx >= 0 || fieldName == "*") {
 		// A list level without an entry of its own keeps the names configured for
 		// its elements, whether or not a '**' wildcard is configured as well.
